@@ -608,3 +608,21 @@ def fill_none_union_nested(case, why):
     """F74: fill_none on a union one of whose contents is an option of lists leaves a union inside a union."""
     return (case.get("act") == "fillnone" and _has_class(case.get("from"), "Union")
             and why.startswith("result fails validity") and "contains UnionArray" in why)
+
+
+def _union_inside_union(L, seen=False):
+    if not isinstance(L, dict):
+        return False
+    c = L.get("c")
+    if c == "Union" and seen:
+        return True
+    s2 = seen or c == "Union"
+    if "x" in L and _union_inside_union(L["x"], s2):
+        return True
+    return any(_union_inside_union(x, s2) for x in L.get("xs", []))
+
+
+def flatten_union_of_lists_of_unions(case, why):
+    """F84: flattening a union whose list contents hold unions themselves leaves a union directly inside a union."""
+    return (case.get("act") in ("flatten", "unflatten") and _union_inside_union(case.get("from"))
+            and why.startswith("result fails validity") and "contains UnionArray" in why)
